@@ -19,30 +19,44 @@ type Pool struct {
 }
 
 var (
-	allPoolsMu sync.Mutex
-	allPools   []*Pool
+	allPools  []*Pool
+	nAllPools int
 )
 
+// register runs under the baton (or before any task exists), so it needs no lock; it is
+// norace and grows its table by hand so that the race detector sees nothing of it.
+//
+//go:norace
 func (p *Pool) register() {
-	allPoolsMu.Lock()
-	if !p.reg {
-		p.reg = true
-		p.free = make([]interface{}, 64)
-		p.who = make([]int32, 64)
-		allPools = append(allPools, p)
+	if p.reg {
+		return
 	}
-	allPoolsMu.Unlock()
+	p.reg = true
+	p.free = make([]interface{}, 64)
+	p.who = make([]int32, 64)
+	if nAllPools == len(allPools) {
+		n := make([]*Pool, 2*len(allPools)+64)
+		for i := 0; i < nAllPools; i++ {
+			n[i] = allPools[i]
+		}
+		allPools = n
+	}
+	allPools[nAllPools] = p
+	nAllPools++
 }
 
+//go:norace
+func (p *Pool) registered() bool { return p.reg }
+
+//go:norace
 func resetPools() {
-	allPoolsMu.Lock()
-	for _, p := range allPools {
+	for k := 0; k < nAllPools; k++ {
+		p := allPools[k]
 		for i := 0; i < p.nf; i++ {
 			p.free[i] = nil
 		}
 		p.nf = 0
 	}
-	allPoolsMu.Unlock()
 }
 
 // objAddr returns an address identifying a pooled object (pointer, map, slice pointer, chan, func).
@@ -56,6 +70,21 @@ func objAddr(x interface{}) uintptr {
 		return v.Pointer()
 	}
 	return 0
+}
+
+// objPtr returns the pointer word of a pointer-shaped pooled object (nil otherwise).
+func objPtr(x interface{}) unsafe.Pointer {
+	if x == nil {
+		return nil
+	}
+	switch reflect.TypeOf(x).Kind() {
+	case reflect.Ptr, reflect.Map, reflect.Chan, reflect.UnsafePointer:
+		type eface struct {
+			typ, data unsafe.Pointer
+		}
+		return (*eface)(unsafe.Pointer(&x)).data
+	}
+	return nil
 }
 
 // ObjAddr is exported for invariant checkers.
@@ -73,7 +102,7 @@ func (p *Pool) Get() interface{} {
 		}
 		return p.real.Get()
 	}
-	if !p.reg {
+	if !p.registered() {
 		p.register()
 	}
 	Yield()
@@ -84,9 +113,9 @@ func (p *Pool) Get() interface{} {
 		}
 		return x
 	}
-	if a := objAddr(x); a != 0 {
+	if a := objPtr(x); a != nil {
 		// sync.Pool's documented edge: Put(x) synchronizes before the Get that returns x.
-		raceAcquire(unsafe.Pointer(a))
+		raceAcquire(a)
 	}
 	return x
 }
@@ -160,14 +189,14 @@ func (p *Pool) Put(x interface{}) {
 	if x == nil {
 		return
 	}
-	if !p.reg {
+	if !p.registered() {
 		p.register()
 	}
-	a := objAddr(x)
-	if a != 0 {
-		raceReleaseMerge(unsafe.Pointer(a))
+	ap := objPtr(x)
+	if ap != nil {
+		raceReleaseMerge(ap)
 	}
-	p.give(w, x, a)
+	p.give(w, x, uintptr(ap))
 	Yield()
 }
 
@@ -214,7 +243,8 @@ func (p *Pool) give(w *World, x interface{}, a uintptr) {
 //go:norace
 func (w *World) GC(mode int) {
 	w.Stat[StPoolGC]++
-	for _, p := range allPools {
+	for k := 0; k < nAllPools; k++ {
+		p := allPools[k]
 		if mode != 0 && w.Choose(2, "gc.pool") == 0 {
 			continue
 		}
@@ -231,8 +261,8 @@ func (w *World) GC(mode int) {
 //go:norace
 func (w *World) FreeCount() int {
 	n := 0
-	for _, p := range allPools {
-		n += p.nf
+	for k := 0; k < nAllPools; k++ {
+		n += allPools[k].nf
 	}
 	return n
 }
